@@ -127,6 +127,10 @@ def validate [VNum α] (v : List α) (tol : α) : Bool :=
 def vlog [VInf α] (v : List α) : List α := v.map fun x => if lt (ofNat 0) x then log x else neg inf
 /-- `esl_vec_{D,F}Exp` -/
 def vexp [VInf α] (v : List α) : List α := v.map exp
+/-- `esl_vec_{D,F}Log2` -/
+def vlog2 [VInf α] (v : List α) : List α := v.map fun x => if lt (ofNat 0) x then log2 x else neg inf
+/-- `esl_vec_{D,F}Exp2` -/
+def vexp2 [VInf α] (v : List α) : List α := v.map exp2
 
 /-- `esl_vec_{D,F}LogSum`; `none` = fault on the empty vector (through `Max`) -/
 def logSum [VInf α] (v : List α) : Option α :=
